@@ -61,7 +61,7 @@ def Op.admissible : Op R → Arr R → Bool
   | .phaseSync, _ => true
   | .expandDims _ none _, _ => true
   | .expandDims _ (some c) _, a => a.sym.valid c && (!a.fermi || !a.sym.parity c)
-  | .squeeze _, a => phaseKeysInTablesB a
+  | .squeeze _, _ => true   -- no condition on the sign table since `_map_blocks` drops stale entries
   | .syncCharges, _ => true
   | .multiplyDiagonal _ _, _ => true
   | .dropMisaligned b _ _, _ => b.validB
@@ -192,7 +192,7 @@ theorem Op.apply_valid [Zero R] [Add R] [Mul R] [Neg R] [Conj R] (op : Op R) (a 
       simp only [Op.admissible, Bool.and_eq_true, Bool.or_eq_true, Bool.not_eq_true'] at hadm
       exact expandDims_some_valid a axis c dual hv hadm.1 hadm.2
   | squeeze axis =>
-    exact squeeze_valid a axis r hv hadm h
+    exact squeeze_valid_any_phases a axis r hv h
   | syncCharges =>
     simp only [Op.apply, pure, Except.pure, Except.ok.injEq] at h
     subst h
